@@ -50,7 +50,7 @@ PROPS = {
     },
     "C08": {
         "title": "Observations start only when all resources are free, and on time when idle",
-        "lean": ["TopsimProps.C08", "TopsimProofs.Bridge.Admission", "TopsimProofs.Bridge.Sched"],
+        "lean": ["TopsimProps.C08", "TopsimProps.C08Traj", "TopsimProofs.Bridge.Admission", "TopsimProofs.Bridge.Sched"],
         "streams": [("default", 40, 600), ("contended", 16, 300), ("idlestart", 12, 150), ("edge", 32, 600), ("hotwait", 12, 200)],
         "monitor": ["C08"],
     },
